@@ -40,6 +40,7 @@ type Behav struct {
 	TermDelay    time.Duration
 	KillLatency  time.Duration // between Kill request and death
 	EventLatency time.Duration // between any death and delivery of its event
+	GateFirst    func() bool   // the party's first call is not made before this reports true
 	OnShutdown   string        // extension reaction to SHUTDOWN event: "" = exit 0, "exit1", "exiterror" (posts exit/error, then exits 1), "ignore", "poll" (keeps polling)
 	ShutDelay    time.Duration
 
@@ -338,6 +339,13 @@ func (e *Engine) nextOp(s *actorState) (Op, bool) {
 	if s.stopped {
 		return Op{}, false
 	}
+	if s.a.IsRT && s.a.st == "pairwait" {
+		// one of two concurrent submissions is still outstanding: a runtime waits for both verdicts before it goes on
+		if s.stalledSide != nil {
+			return Op{Kind: "resume-side"}, true
+		}
+		return Op{}, false
+	}
 	if s.pc < len(s.b.Script) {
 		return s.b.Script[s.pc], true
 	}
@@ -462,6 +470,12 @@ func (e *Engine) doOp(s *actorState, op Op, scripted bool) {
 		// submitted on the main connection: exactly one of the two may be accepted
 		id := a.CurReqID
 		body := e.respBody(s, op)
+		if id == "" {
+			// nothing in flight for this runtime: an ordinary (out of turn) submission
+			c := a.Response(e.resolveID(a, "cur"), body, nil)
+			c.ExpectAccept, c.Judged = false, true
+			break
+		}
 		if op.Site != "" {
 			e.r.AddHold(op.Site, 1, 2)
 		}
@@ -866,6 +880,9 @@ func (e *Engine) enabled() (acts []action, due time.Duration, hasDue bool) {
 		op, ok := e.nextOp(s)
 		if !ok {
 			continue
+		}
+		if s.b.GateFirst != nil && len(a.Calls) == 0 && !s.b.GateFirst() {
+			continue // its first call waits for a condition of the scenario
 		}
 		if d, ok := s.b.Stalls[len(a.Calls)]; ok && !s.stalled[len(a.Calls)] {
 			if s.stalled == nil {
